@@ -330,7 +330,15 @@ def run_case(spec):
              'treatment_share_range': (0.1, 0.6), 'budget_range': (0.0, 10.0), 'treatment_geos_range': (1, 3),
              'control_geos_range': (2, 5), 'n_geos_max': 5, 'n_pretest_max': 30, 'n_designs': 4,
              'rho_max': 0.95, 'sig_level': 0.8, 'power_level': 0.7, 'min_corr': 0.9, 'flevel': 0.95}
-    a = P(**valid)
+    av = util.call(lambda: P(**valid))
+    if not av.ok:
+      violations.append({'clause': 'accept', 'mech': 'param-rejects-valid:combination',
+                         'detail': 'every field in its documented domain (%r) but construction raised %s' % (valid, av.describe())})
+      both = 0
+      return {'nontrivial': False, 'nontrivial_fps': sorted(fps), 'fp': 'chunk-%d' % idx, 'classes': ['grid+pairs'],
+              'counters': dict(counters), 'sets': {'field_outcomes': ['%s:%s' % (f, o) for f in per_field for o in per_field[f]]},
+              'violations': violations[:40], 'sample': sample}
+    a = av.value
     b = P(**dict(valid))
     counters['equality_checked'] += 1
     if not (a == b):
